@@ -112,7 +112,8 @@ func csvParseN(b []byte, fieldsPerRecord int) ([][]string, bool) {
 	}
 }
 
-var fancyNames = []string{"alice", "bob", "carol", "dave, jr.", "e\"ve", "0", "1", "007", "-3", "ünï", "x y", "Peer 1", "0x10", "1e3", "NaN"}
+var fancyNames = []string{"alice", "bob", "carol", "dave, jr.", "e\"ve", "0", "1", "007", "-3", "ünï", "x y", "Peer 1", "0x10", "1e3", "NaN",
+	"Tom & Jerry", "<b>eve</b>", "o'neil", "a&amp;b", "&lt;"}
 
 // names with leading / trailing white space: used for the CLI and the library readers only (an HTML page
 // cannot show the difference, so the playground cases keep to the names above)
@@ -381,6 +382,12 @@ func runUploads(h *H, prop string, n int) {
 		}
 		lb, pb := csvBytes(ltRecs), csvBytes(ptRecs)
 		code, page, oc := env.upload(nb, lb, pb, hp, wd)
+		if oc == "timeout" && slowRetries > 0 {
+			// a loaded machine stretches a several-thousand-iteration upload past the watchdog: once more, six times
+			// as long, before it is reported as "did not answer" (a hang stays a hang)
+			slowRetries--
+			code, page, oc = env.upload(nb, lb, pb, hp, 6*wd)
+		}
 		w := h.line(prop, "upload").Bool(hasNames)
 		pn, ok1 := csvParse(nb)
 		pl, ok2 := csvParse(lb)
@@ -399,7 +406,8 @@ func runUploads(h *H, prop string, n int) {
 				rows := rowRe.FindAllStringSubmatch(page, -1)
 				w.Int(len(rows))
 				for _, r := range rows {
-					name := html.UnescapeString(html.UnescapeString(strings.TrimSpace(r[3])))
+					// the cell as a browser shows it: character references resolved exactly once
+					name := html.UnescapeString(strings.TrimSpace(r[3]))
 					sc, err := strconv.ParseFloat(strings.TrimSpace(html.UnescapeString(r[4])), 64)
 					if err != nil {
 						sc = -1
@@ -824,6 +832,20 @@ func runCliPipeline(h *H, prop string) {
 			}
 			if g.intn(3) == 0 {
 				alpha = []string{"0.2", "0.9", "1"}[g.intn(3)]
+			}
+			if k%4 == 3 && dim >= 3 {
+				// a peer reached only through a FAINT arc (weights eight and more orders of magnitude apart), not
+				// pre-trusted, and one distrusted faintly: scores far below 1e-7, also negative ones - the score
+				// column must still carry them exactly
+				faint := g.pick("1e-9", "3e-12", "7.5e-10", "1.25e-8")
+				lt = [][]string{{"from", "to", "value"},
+					{names[0], names[1], fmtLevel(g)}, {names[0], names[2], faint},
+					{names[1], names[0], fmtLevel(g)}, {names[2], names[0], "1"}}
+				if dim >= 4 {
+					lt = append(lt, []string{names[1], names[3], "-" + g.pick("1e-9", "2.5e-11")}, []string{names[3], names[0], "1"})
+				}
+				pt = [][]string{{"peer_id", "value"}, {names[0], "1"}}
+				g.count("pipeline:faint-arcs")
 			}
 		}
 		ltF, ptF, outF := filepath.Join(work, "lt.csv"), filepath.Join(work, "pt.csv"), filepath.Join(work, "out.csv")
